@@ -381,8 +381,10 @@ def iteration_weight(f: FuncInfo, name: str) -> Tuple[int, List[ast.AST]]:
             return
         if isinstance(n, ast.Call) and call_name(n) in _CONSUMERS and any(isinstance(a, ast.Name) and a.id == name for a in n.args):
             sites.append((n, in_loop))
-        elif isinstance(n, ast.Call) and in_loop and any(isinstance(a, ast.Name) and a.id == name for a in list(n.args) + [k.value for k in n.keywords]):
-            sites.append((n, True))  # handed to a callee once per trip: each callee may walk it
+        elif isinstance(n, ast.Call) and any(isinstance(a, ast.Name) and a.id == name for a in list(n.args) + [k.value for k in n.keywords]) and (in_loop or (isinstance(n.func, ast.Attribute) and n.func.attr.startswith('_') or isinstance(n.func, ast.Name) and n.func.id.startswith('_'))):
+            # handed to a callee (once per trip in a loop; or to a private routine of the program, spelled out once per
+            # receiver -- the unrolled form of such a loop): each callee may walk it
+            sites.append((n, in_loop))
         for c in ast.iter_child_nodes(n):
             walk(c, in_loop)
 
